@@ -79,6 +79,7 @@ Fixpoint chain_targets (t : tree) (fuel : nat) (rel : bytes) : list bytes :=
     end
   end.
 
+Definition under_eq (d k : bytes) : bool := if feq d k then true else under d k.
 Definition vdb_prefix : bytes := bs "/var/db/pkg/".
 Definition dev_prefix : bytes := bs "/dev/".
 Definition contents_ok (p : pkg) : bool :=
@@ -87,6 +88,7 @@ Definition contents_names (p : pkg) : list bytes :=
   match parse_contents (p_contents p) with Ok ns => ns | _ => [] end.
 Definition wf_pkgs (t : tree) (ps : list pkg) : bool :=
   nodupb (map p_dir ps)
+  && forallb (fun p => forallb (fun q => feq (p_dir p) (p_dir q) || negb (under (p_dir p) (p_dir q))) ps) ps
   && (N.of_nat (length (filter (fun p => negb (contents_ok p)) ps)) <=? 1)
   && forallb (fun p =>
        let d := p_dir p in
@@ -126,7 +128,6 @@ Definition wf (c : case) : bool :=
 Definition user_ops (i : input) : list op := script_ops (i_script i).
 Definition key (x : member) : bytes := tl (m_name x).          (* "./usr/bin" |-> "/usr/bin" *)
 Definition has (ms : list member) (k : bytes) : bool := existsb (fun x => feq (m_name x) (dot :: k)) ms.
-Definition under_eq (d k : bytes) : bool := if feq d k then true else under d k.
 
 (* what a line of an add-files script names *)
 Definition targets (t : tree) (li : lineinfo) : list bytes :=
@@ -177,16 +178,21 @@ Definition is_fdl (t : tree) (n : bytes) : bool :=
 Definition s_pkgfiles (i : input) (uops : list op) (ms : list member) : bool :=
   forallb (fun p => forallb (fun n => imp (is_fdl (i_tree i) n) (imp (negb (omits uops n)) (has ms n)))
                             (contents_names p)) (selected (i_pkgs i)).
-(* 6. the installed-package database entries of exactly the selected packages, none with -novdb *)
-Definition s_vdb (i : input) (uops : list op) (pars : list bytes) (ms : list member) : bool :=
-  let t := i_tree i in
+(* 6. the installed-package database entries of the selected packages (6a) and of no other
+      package, none at all with -novdb (6b; what the user adds and the parents of members excepted) *)
+Definition s_vdb_in (i : input) (uops : list op) (ms : list member) : bool :=
   forallb (fun p =>
     if p_sel p && negb (i_novdb i) then
-      forallb (fun k => imp (under_eq (p_dir p) k) (imp (negb (omits uops k)) (has ms k))) (keys t)
+      forallb (fun k => imp (under_eq (p_dir p) k) (imp (negb (omits uops k)) (has ms k))) (keys (i_tree i))
+    else true) (i_pkgs i).
+Definition s_vdb_out (i : input) (uops : list op) (pars : list bytes) (ms : list member) : bool :=
+  forallb (fun p =>
+    if p_sel p && negb (i_novdb i) then true
     else
       forallb (fun x => imp (under_eq (p_dir p) (key x))
-                            (if adds t uops (key x) then true else memb (key x) pars)) ms) (i_pkgs i).
-(* 7. the standard stage directories; the static /dev nodes, none of them with -emptydev *)
+                            (if adds (i_tree i) uops (key x) then true else memb (key x) pars)) ms) (i_pkgs i).
+(* 7. the standard stage directories (7a); the static /dev nodes (7b), none of them with
+      -emptydev (7c) *)
 Definition std_dirs : list bytes :=
   flat_map (fun o => match o with OAdd (MkLI TDir n false _ _ _) => [n] | _ => [] end) stddir_ops.
 Definition op_names (ops : list op) : list bytes :=
@@ -194,11 +200,15 @@ Definition op_names (ops : list op) : list bytes :=
 Definition static_names : list bytes :=
   op_names (script_ops (text_lines D_DevDirSetup))
   ++ flat_map (fun l => match ext_line l with XExt _ ns => ns | _ => [] end) (text_lines D_DevDirExtend).
-Definition s_standard (i : input) (uops : list op) (pars : list bytes) (ms : list member) : bool :=
-  forallb (fun n => imp (negb (omits uops n)) (has ms n)) std_dirs
-  && if i_emptydev i
-     then forallb (fun n => imp (has ms n) (if adds (i_tree i) uops n then true else memb n pars)) static_names
-     else forallb (fun n => imp (negb (omits uops n)) (has ms n)) static_names.
+Definition s_std_dirs (uops : list op) (ms : list member) : bool :=
+  forallb (fun n => imp (negb (omits uops n)) (has ms n)) std_dirs.
+Definition s_static_in (i : input) (uops : list op) (ms : list member) : bool :=
+  if i_emptydev i then true
+  else forallb (fun n => imp (negb (omits uops n)) (has ms n)) static_names.
+Definition s_static_out (i : input) (uops : list op) (pars : list bytes) (ms : list member) : bool :=
+  if i_emptydev i
+  then forallb (fun n => imp (has ms n) (if adds (i_tree i) uops n then true else memb n pars)) static_names
+  else true.
 (* 8. the user's add-files entries (unless a later line omits them again) *)
 Definition absent (t : tree) (n : bytes) : bool := match lstat t n with None => true | Some _ => false end.
 Fixpoint s_user (t : tree) (ms : list member) (ops : list op) : bool :=
@@ -243,8 +253,9 @@ Definition spec_ok (i : input) (ls : list bytes) (ms : list member) : bool :=
   let pars := member_parents ms in
   s_relative ms && s_unique ms && s_parents [] (map key ms) && s_hardlinks (i_tree i) [] ms
   && list_beq feq ls (map key ms)
-  && s_pkgfiles i uops ms && s_vdb i uops pars ms && s_standard i uops pars ms && s_user (i_tree i) ms uops
-  && s_unselected i uops ms && s_omit (i_tree i) pars ms uops.
+  && s_pkgfiles i uops ms && s_vdb_in i uops ms && s_std_dirs uops ms && s_static_in i uops ms
+  && s_user (i_tree i) ms uops && s_unselected i uops ms && s_omit (i_tree i) pars ms uops
+  && s_vdb_out i uops pars ms && s_static_out i uops pars ms.
 
 (* a run ends with an archive or with a refusal (exit status 1, nothing written); it never crashes *)
 Definition spec (c : case) (o : obs) : bool :=
